@@ -124,13 +124,21 @@ def execute(script, failing, moves, anchor_seed=None):
         ok = token not in failing
         sched.emit('storage', o=token, ok=ok)
         if not ok:
-            # what a storage raises varies: one argument, (errno, text), none at all
-            n = sum(bytearray(str(token).encode())) % 3
+            # what a storage raises varies with the token and with the schedule: one argument, (errno, text), none at all,
+            # and types that code likes to use as its own control-flow signals (empty container, exhausted iterator)
+            n = (sum(bytearray(str(token).encode())) + len(moves)) % 6
             if n == 0:
                 raise IOError('scripted storage failure on %s' % token)
             if n == 1:
                 raise OSError(28, 'No space left on device (scripted, %s)' % token)
-            raise KeyError()
+            if n == 2:
+                raise KeyError()
+            if n == 3:
+                raise IndexError('list index out of range (scripted, %s)' % token)
+            if n == 4:
+                raise StopIteration()
+            import queue as _queue
+            raise _queue.Empty()
 
     class SpyStorage(TapeCassette):
         def __init__(self):
